@@ -171,6 +171,41 @@ pub fn walk_opts(b: &mut Bat, h: &Multiboot2Header, hbase: *const u8, cap: usize
             Out::Panic => b.recs.push(Rec { name: "iter.last", val: Val::Panic }),
         }
     }
+    if resume {
+        // position-based adapters (nth, skip, step_by) on fresh iterators: an override that hops by size fields is bound
+        // by the same rules, and so is the Debug output of an iterator in every position
+        for k in 0..=4usize {
+            for (name, which) in [("iter.nth", 0), ("iter.skip", 1), ("iter.step_by", 2)] {
+                let r = b.ctx.call(name, || match which {
+                    0 => h.iter().nth(k),
+                    1 => h.iter().skip(k).next(),
+                    _ => h.iter().step_by(k + 1).nth(1),
+                });
+                match r {
+                    Out::Val(Some(t)) => {
+                        b.recs.push(Rec { name, val: Val::S { off: rel(t, hbase), len: std::mem::size_of_val(t), hash: 0 } });
+                        let save = b.base;
+                        b.base = hbase;
+                        b.s("iter.adapter.payload", || Ok(t.payload()));
+                        b.base = save;
+                    }
+                    Out::Val(None) => b.recs.push(Rec { name, val: Val::E(0) }),
+                    Out::Panic => b.recs.push(Rec { name, val: Val::Panic }),
+                }
+            }
+            let mut it = h.iter();
+            let advanced = b.ctx.call("iter.advance", || {
+                for _ in 0..k {
+                    if it.next().is_none() {
+                        break;
+                    }
+                }
+            });
+            if !advanced.is_panic() {
+                b.dbg("Debug(iter, advanced)", &it);
+            }
+        }
+    }
     if let Out::Val(mut it) = b.ctx.call("iter", || h.iter()) {
         b.dbg("Debug(iter)", &it);
         for _ in 0..cap {
